@@ -227,7 +227,9 @@ def expected_values(env, case, dataset, r, fresh):
     """Closed forms computed independently (numpy float64) from the pre-step state, the statistics and the dataset.
     Returns {param: (kind, expected array (means / variances), tolerance array)}; variances for istd / noise."""
     np = env.np
-    pre, S, burn = r["pre"], r["S"], r["burn"]
+    # the phase the documentation assigns to this iteration (memory-less rule iff k <= n_burn_in_iter), not the flag the
+    # algorithm happened to pass: a wrong flag then shows up as a parameter that is not the documented closed form
+    pre, S, burn = r["pre"], r["S"], r.get("burn_doc", r["burn"])
     mixture = case["model"] == "mixture_logistic"
     out = {}
     for p, (kind, var) in rule_kinds(env, pre).items():
@@ -525,6 +527,11 @@ def run_case(env, chk, case, items):
     for r in rec + extra:
         k = r["k"]
         fresh = isinstance(k, int) and k <= nb + 1
+        if isinstance(k, int):
+            r["burn_doc"] = (k <= nb)
+            if r["burn"] != r["burn_doc"]:
+                chk.impl_failure(dict(case, step=k), f"iteration {k}: the maximisation was run with burn_in={r['burn']} although the "
+                                 f"memory-less phase is k <= {nb}")
         exp = check_step(env, chk, case, dataset, r, fresh, k)
         try:
             line, order = lean_line(env, case, dataset, r)
